@@ -117,6 +117,11 @@ def programs_in(history):
     return out
 
 
+def tie_table_for(impl, histories):
+    """(implementation-only runs need no table: T/Y ops are model-side)"""
+    return []
+
+
 def tie_api_mod_lf(cx, impl, histories, label):
     """T3 modulo the encoder: the parser/API model runs with the implementation's own per-line
     results (table mode), so only the state machine is compared."""
@@ -137,9 +142,14 @@ def tie_api_mod_lf(cx, impl, histories, label):
         stream += h
     n, out_c, mism, crash = alv.correspond(impl, stream, label)
     cx.count(n - nt, [])
+    # op indices are reported relative to the histories (the table ops in front are not part of what is returned)
     if crash:
+        crash = dict(crash)
+        crash["op_index"] = max(crash.get("op_index", nt) - nt, 0)
         cx.violations.append({"kind": "crash", **crash})
     for m in mism:
+        m = dict(m)
+        m["op_index"] = max(m.get("op_index", nt) - nt, 0)
         cx.broken.append({"correspondence": label, **m})
     cx.oblige(f"correspondence {label}: {n - nt} ops, {len(histories)} histories", not mism and not crash,
               json.dumps(mism[:3]))
@@ -1127,6 +1137,58 @@ def check_C15(cx):
             cx.violations.append({"kind": "history", "after_history": used[ne:], "fresh": fresh[ne:],
                                   "what": "the same call with the same options, chunk setting and offset behaves differently after this history "
                                           "than on a fresh instance", "history": [x[:200] for x in h]})
+    # the reference from ANOTHER process: state kept outside the instances (a static, errno, a cache) would hit the history instance and
+    # its fresh twin alike — the twin's calls are run once more alone in a new process (a sample of the histories, and every history the
+    # model disagreed on)
+    def twin_alone(h, tl):
+        first_f = len(h) - 1 - h[::-1].index("F 0", 1)
+        seg = h[first_f + 1:]                       # N .. settings .. the final block .. F of the twin
+        try:
+            sub = tie_table_for(impl, [seg])
+            rc_, o_, e_ = alv.run_driver(impl, sub + seg)
+        except ImplCrash:
+            return None
+        return o_[len(sub):] if rc_ == 0 else None
+    suspects = set()
+    for b in cx.broken:
+        if "op_index" in b:
+            q, acc = b["op_index"], 0
+            for hi, h in enumerate(hists):
+                if acc <= q < acc + len(h):
+                    suspects.add(hi)
+                acc += len(h)
+    sample = sorted(suspects)[:6] + [i for i in range(len(hists)) if zlib.crc32(b"twin%d" % i) % max(1, len(hists) // 40) == 0][:50]
+    pos_of, acc = {}, 0
+    for hi, h in enumerate(hists):
+        pos_of[hi] = acc
+        acc += len(h)
+    nalone = 0
+    for hi in sample:
+        h, (tl, ne) = hists[hi], meta[hi]
+        o = out[pos_of[hi]:pos_of[hi] + len(h)]
+        if len(o) < len(h):
+            continue
+        alone = twin_alone(h, tl)
+        if alone is None:
+            continue
+        nalone += 1
+        first_f = len(h) - 1 - h[::-1].index("F 0", 1)
+        used = list(o[first_f - tl: first_f])
+        ref = list(alone[len(alone) - tl - 1: len(alone) - 1])
+        kk = int(h[len(h) - 1 - tl + ne].split()[2])
+        for blk in (used, ref):
+            try:
+                newoff = int(blk[ne + 2])
+                blk[ne + 3] = blk[ne + 3][: max(0, 2 * (newoff - kk))]
+            except (ValueError, IndexError):
+                pass
+        if used != ref and nviol < 8:
+            nviol += 1
+            cx.violations.append({"kind": "history-process", "after_history": used[ne:], "fresh_instance_in_a_new_process": ref[ne:],
+                                  "what": "the same call with the same options, chunk setting and offset behaves differently after this history "
+                                          "than on a fresh instance in a fresh process (state kept outside the instances)",
+                                  "history": [x[:200] for x in h]})
+    cx.oblige("final calls of %d histories agree with the same call on a fresh instance in a new process" % nalone, nalone > 0 or not sample)
     # library-managed buffers: how much the instance has assembled (and grown) before must not matter for a call at an explicit offset
     ihists = []
     fin = b"mov rax, 0x1122334455667788\nadd rax, rcx\nret"
@@ -1319,13 +1381,18 @@ def malformed_families(g, corpus):
                 out.append(("memory", ca % bm))
         out += [("memory", "lea rax, [rsp+rsp]"), ("memory", "lea rax, [esp+esp]"), ("memory", "lea rax, [rsp+*4*r14*4]"),
                 ("memory", "mov [rax],[rbx]"), ("memory", "lea rax, [2*rsp]"), ("memory", "lea rax, [4*rsp+0x10]"), ("memory", "lea rax, [rsp+4*rsp]")]
+        # brackets that balance over the LINE but not within an operand, and brackets in the wrong place
+        out += [("memory", t) for t in
+                ["mov [rax, rbx]", "mov qword [rax+8, rcx]", "add [rbx+2*rcx, rdx]", "shld [rax, rbx], cl", "vmovdqu [rax, ymm1]", "mov rax], [rbx",
+                 "mov [rax, [rbx]]", "lea rax, [[rbx]", "mov rax, [[rbx+8]", "vaddpd ymm0, [rax, ymm1], ymm2]", "mov [rax, 5]", "push [rax",
+                 "imul rax, [rbx, 3]", "add qword [[rax], 1", "lea rax, [rbx+[rcx]"]]
     return out
 
 
 def check_C10(cx):
     thms = ["AL.Properties.C10." + t for t in ["rejected_line_fails_call", "rejected_line_in_program", "reject_nonprintable",
             "reject_unknown_mnemonic", "reject_unknown_mnemonic_line", "lookup_error_rejects", "reject_unknown_register",
-            "strToReg_unknown", "reject_empty_operand", "reject_unclosed_bracket", "reject_bad_scale", "reject_glued_scale", "reject_stack_pointer_index"]] + \
+            "strToReg_unknown", "reject_empty_operand", "reject_unclosed_bracket", "reject_second_bracket", "reject_bad_scale", "reject_glued_scale", "reject_stack_pointer_index"]] + \
            ["AL.Properties.C10Table." + t for t in ["formCheck_all", "nonformat_strings", "reject_bad_format", "supported_forms_found"]]
     info = stage_proofs(cx, "AL.Properties.C10", thms)
     impl = build_impl(cx)
@@ -1439,7 +1506,8 @@ SITE_LEMMAS = {
     "find_add_mem": "indices i-2..i+1 with 1 <= i < len: inside the NUL-terminated string (Impl.findAddMemGo guards i >= 2)",
     "find_mem_const": "indices i+1..i+3 read only behind non-NUL characters (short-circuit), Impl.findMemConstGo",
     "get_reg_str": "C09.regstr_length (str[6])", "copy_index_reg": "C09.indexreg_length (sib[6])",
-    "get_index_reg": "mem[len-1] with len >= 1; mem[j+1], mem[j+2] behind a '*' that is not the last character",
+    "get_index_reg": "mem[len-1] with len >= 1; mem[j+1], mem[j+2] behind a '*' that is not the last character; strchr on the NUL-terminated operand "
+                     "(open_bracket + 1 is at most the terminator: open_bracket points at a '[' of the string)",
     "check_sib_disp": "no array access", "get_operand_type": "reads up to the first non-blank or NUL", "find_reg": "REG_TABLE scan stops at the empty sentinel",
     "str_to_reg": "reg[1], reg[end] inside the NUL-terminated token", "strlen_int": "reads up to NUL", "process_neg_disp": "no array access",
     "get_opcode_offset": "literal opd indices", "get_opd_format": "C09.letter_index/kind_letter (index table), scan stops at opd_error sentinel",
@@ -1984,6 +2052,12 @@ def spelling_variants(t):
     lz = "".join(parts)
     if lz != t:
         out.append(("leading-zero", lz))
+    # a decimal displacement with leading zeros: `[rbx+010]` is rbx+10 (not octal), `[0100]` is 100
+    pad = lambda m: "0" * (1 + len(m) % 2) + m
+    lzd = re.sub(r"([+-])(\d+)\]", lambda m: m.group(1) + pad(m.group(2)) + "]", t)
+    lzd = re.sub(r"\[(\d+)\]", lambda m: "[" + pad(m.group(1)) + "]", lzd)
+    if lzd != t:
+        out.append(("leading-zero-disp", lzd))
     return out
 
 
@@ -2095,9 +2169,14 @@ def check_enc(cx):
     vkeys, vsrc = [], {}
     for g_, ts in bygroup.items():
         big = [t for t in ts if re.search(r"(?<![\w\[*+-])-?(\d\d+|[89])(?![\w*])", re.sub(r"\[[^\]]*\]", "", t))][:8]
-        for j, t in enumerate(ts[:2] + big):
+        bigd = [t for t in ts if re.search(r"[+-]\d+\]|\[\d+\]", t)]
+        bigd = bigd[:2] + [t for t in bigd[2:] if re.search(r"[+-](\d*[89]\d*|\d{3,})\]", t)][:3]
+        for j, t in enumerate(ts[:2] + big + bigd):
             for kind, vt in spelling_variants(t):
-                if (kind == "leading-zero") != (j >= 2):
+                if kind == "leading-zero-disp":
+                    if j < 2 + len(big):
+                        continue
+                elif (kind == "leading-zero") != (2 <= j < 2 + len(big)):
                     continue
                 for o in opts:
                     if vt != t and (o, vt.encode()) not in vsrc and (o, vt.encode()) not in res:
@@ -3082,6 +3161,9 @@ def check_C20(cx):
 def history_around(ops, idx):
     """the ops of the history that contains op number idx (a history starts at its first N op
     after an F op or at the beginning)"""
+    if not ops:
+        return []
+    idx = max(0, min(idx, len(ops) - 1))
     start = idx
     while start > 0 and not (ops[start].startswith("N ") and (start == 0 or ops[start - 1].startswith("F "))):
         start -= 1
@@ -3099,7 +3181,17 @@ def run_check(prop, tier, seed):
         print(f"no check registered for {prop}")
         return 2
     cx = Ctx(prop, tier, seed)
-    return CHECKS[prop](cx)
+    try:
+        return CHECKS[prop](cx)
+    except Exception:
+        # the check itself failed (an observation it could not interpret): the property is not shown to hold on this tree
+        import traceback
+        tb = traceback.format_exc()
+        sys.stderr.write(tb)
+        path = alv.write_replay(prop, seed, "obligation", {"broken": [{"obligation": "the check runs to its verdict", "internal_error": tb[-3000:]}],
+                                                             "violations": cx.violations[:5]})
+        print(f"VIOLATION property={prop} replay={path} no-failing-input-found")
+        return 1
 
 
 def replay(path):
